@@ -6,6 +6,18 @@
                               fid ftype fref fstr fparse_ok fparse]
    2 SORT  : which(0 ElementIDs,1 FeatureIDs,2 Elements) n (k r v)* | n id*   (observed order)
    3 PARSE : which(0 object,1 element,2 feature) string | ok id
+   5 COUNTS: which(0 FeatureIDs.Counts, 1 ElementIDs.Counts) n (k r v)* (any of the 7 kinds) | nodes ways relations
+   6 LIST  : which(0 Elements.ElementIDs, 1 Elements.FeatureIDs, 2 Objects.ObjectIDs) n (k r v)* | n id* | result was nil
+   7 WNODE : id version | WayNode.FeatureID WayNode.ElementID
+   8 MEMBER: type-string ref version | (ok, Member.FeatureID) (ok, Member.ElementID)   ok = no panic
+   9 TYPEF : type-string ref | (ok, Type.FeatureID)                                     ok = no error
+   10 OOR  : k (element kind) r v, ANY int64 r and v (outside the property) |
+             feature id, its Ref, element id, its Version.  Judgement 2 here is not the property
+             but the closed formulas of C10/OutOfRange.v (reference mod 2^40, version mod 2^16,
+             type field = kind code OR bits 40..46 of r, sign = bit 47 of r)
+   4 CONV  : k r v (element kind, in range) | for K in node, way, relation:
+             (ok, value) of FeatureID.KID() on the feature id, then the same three for
+             ElementID.KID() on the element id  (ok = did not panic)
    codes: 1 = model <> implementation, 2 = property oracle fails on the observation,
           0 = case does not parse. *)
 From Coq Require Import ZArith List String Ascii Bool.
@@ -113,37 +125,115 @@ Definition check_sort : P (list Z) :=
 Definition nocharb (c : ascii) (s : string) : bool :=
   match split_on c s with [_] => true | _ => false end.
 
-(* the shape named by the property, decided on the text alone (independent of the parser
-   model's control flow): exactly one '/', known kind, at most one ':', decimal parts *)
-Definition decimalb (s : string) : bool :=
-  match s with
-  | String "-" r | String "+" r => negb (String.eqb r "") && all_digits r
-  | _ => negb (String.eqb s "") && all_digits s
-  end.
-
-Definition shapeb (which : Z) (s : string) : bool :=
-  match split_on slash s with
-  | [t; rest] =>
-      match kind_of_name t with
-      | Some k =>
-          (if which =? 0 then true else is_element k) &&
-          (if which =? 2 then decimalb rest
-           else match split_on colon rest with
-                | [a] => decimalb a
-                | [a; b] => decimalb a && (String.eqb b "-" || decimalb b)
-                | _ => false
-                end)
-      | None => false
-      end
-  | _ => false
-  end.
-
 Definition check_parse : P (list Z) :=
   which <- pint ;; s <- pstring ;; ok <- pbool ;; v <- pint ;;
   let m := if which =? 0 then parse_object_id s
            else if which =? 1 then parse_element_id s else parse_feature_id s in
   let j1 := oZ_eqb m (obs_opt ok v) in
-  let j2 := if shapeb which s then true else negb ok in
+  (* oracle, from the text alone: no shape -> error; shape and numbers in range -> exactly the
+     packed id of the kind, reference and version the text denotes; shape with numbers outside
+     the range of the property: not specified *)
+  let j2 :=
+    if shapeb which s then
+      match denoted which s with
+      | Some (k, r, ver) =>
+          if in_rangeb r ver
+          then oZ_eqb (obs_opt ok v) (Some (pack k (norm_r k r) (norm_v k ver)))
+          else true
+      | None => false
+      end
+    else negb ok in
+  ret (code_if j1 1 ++ code_if j2 2)%list.
+
+(* ---- CONV: the panicking conversions ---- *)
+Definition pobs : P (option Z) := ok <- pbool ;; v <- pint ;; ret (obs_opt ok v).
+
+Definition conv_kinds := [KNode; KWay; KRelation].
+
+Definition check_conv : P (list Z) :=
+  k <- pkind ;; r <- pint ;; v <- pint ;;
+  fo <- prep 3 pobs ;; eo <- prep 3 pobs ;;
+  let fid := feature_id k r in
+  let eid := element_id k r v in
+  let j1 :=
+    list_eqb oZ_eqb (map (fun K => conv_feature K fid) conv_kinds) fo
+    && list_eqb oZ_eqb (map (fun K => conv_element K eid) conv_kinds) eo in
+  (* the conversion to kind K succeeds exactly on ids of kind K, and then gives the ref *)
+  let want := map (fun K => if kind_eqb K k then Some r else None) conv_kinds in
+  let j2 := is_element k && list_eqb oZ_eqb want fo && list_eqb oZ_eqb want eo in
+  ret (code_if j1 1 ++ code_if j2 2)%list.
+
+(* ---- COUNTS ---- *)
+Definition z3_eqb (a b : Z * Z * Z) : bool :=
+  let '(x, y, z) := a in let '(x', y', z') := b in (x =? x') && (y =? y') && (z =? z').
+
+Definition count_kindb (K : kind) (l : list (kind * Z * Z)) : Z :=
+  Z.of_nat (List.length (filter (fun t => kind_eqb (fst (fst t)) K) l)).
+
+Definition check_counts : P (list Z) :=
+  which <- pint ;; inp <- plist ptriple ;; n <- pint ;; w <- pint ;; r <- pint ;;
+  let ids := objects_object_ids inp in
+  let m := if which =? 0 then feature_ids_counts ids else element_ids_counts ids in
+  let j1 := z3_eqb m (n, w, r) in
+  let j2 := z3_eqb (count_kindb KNode inp, count_kindb KWay inp, count_kindb KRelation inp) (n, w, r) in
+  ret (code_if j1 1 ++ code_if j2 2)%list.
+
+(* ---- LIST ---- *)
+Definition check_list : P (list Z) :=
+  which <- pint ;; inp <- plist ptriple ;; obs <- plist pint ;; isnil <- pbool ;;
+  let m := if which =? 0 then elements_element_ids inp
+           else if which =? 1 then elements_feature_ids inp else objects_object_ids inp in
+  let j1 := list_eqb Z.eqb m obs && Bool.eqb isnil (match inp with [] => true | _ => false end) in
+  let spec := map (fun '(k, r, v) => if which =? 1 then pack k r 0
+                                     else pack k (norm_r k r) (norm_v k v)) inp in
+  let j2 := list_eqb Z.eqb spec obs in
+  ret (code_if j1 1 ++ code_if j2 2)%list.
+
+(* ---- WNODE / MEMBER / TYPEF ---- *)
+Definition check_wnode : P (list Z) :=
+  id <- pint ;; ver <- pint ;; fid <- pint ;; eid <- pint ;;
+  let j1 := (way_node_feature_id id =? fid) && (way_node_element_id id ver =? eid) in
+  let j2 := (fid =? pack KNode id 0) && (eid =? pack KNode id ver) in
+  ret (code_if j1 1 ++ code_if j2 2)%list.
+
+Definition element_kind_of_name (t : string) : option kind :=
+  match kind_of_name t with
+  | Some k => if is_element k then Some k else None
+  | None => None
+  end.
+
+Definition check_member : P (list Z) :=
+  typ <- pstring ;; ref <- pint ;; ver <- pint ;; fo <- pobs ;; eo <- pobs ;;
+  let j1 := oZ_eqb (member_feature_id typ ref) fo && oZ_eqb (member_element_id typ ref ver) eo in
+  let j2 :=
+    match element_kind_of_name typ with
+    | Some k => oZ_eqb fo (Some (pack k ref 0)) && oZ_eqb eo (Some (pack k ref ver))
+    | None => oZ_eqb fo None && oZ_eqb eo None
+    end in
+  ret (code_if j1 1 ++ code_if j2 2)%list.
+
+Definition check_typef : P (list Z) :=
+  typ <- pstring ;; ref <- pint ;; fo <- pobs ;;
+  let j1 := oZ_eqb (GenIds.Type_FeatureID typ ref) fo in
+  let j2 :=
+    match element_kind_of_name typ with
+    | Some k => oZ_eqb fo (Some (pack k ref 0))
+    | None => oZ_eqb fo None
+    end in
+  ret (code_if j1 1 ++ code_if j2 2)%list.
+
+(* ---- OOR: outside the domain of the property ---- *)
+Definition check_oor : P (list Z) :=
+  k <- pkind ;; r <- pint ;; v <- pint ;;
+  fid <- pint ;; fref <- pint ;; eid <- pint ;; ever <- pint ;;
+  let mf := feature_id k r in
+  let me := element_id k r v in
+  let j1 := (mf =? fid) && (FeatureID_Ref mf =? fref) && (me =? eid) && (ElementID_Version me =? ever) in
+  let j2 :=
+    is_element k
+    && (fref =? r mod two40) && (ever =? v mod two16)
+    && (Z.land fid c_typeMask =? Z.lor (kcode k) ((r / two40) mod 128) * two56)
+    && Bool.eqb (fid <? 0) (Z.testbit r 47) in
   ret (code_if j1 1 ++ code_if j2 2)%list.
 
 Definition check_case (t : toks) : list Z :=
@@ -152,6 +242,13 @@ Definition check_case (t : toks) : list Z :=
       let p := if tag =? 2 then check_id        (* tags are zigzag-encoded: 1 -> 2, 2 -> 4, 3 -> 6 *)
                else if tag =? 4 then check_sort
                else if tag =? 6 then check_parse
+               else if tag =? 8 then check_conv
+               else if tag =? 10 then check_counts
+               else if tag =? 12 then check_list
+               else if tag =? 14 then check_wnode
+               else if tag =? 16 then check_member
+               else if tag =? 18 then check_typef
+               else if tag =? 20 then check_oor
                else pfail in
       match parse_all p rest with Some codes => codes | None => [0] end
   | [] => [0]
